@@ -16,6 +16,7 @@ import (
 
 	"github.com/bufbuild/buf/private/bufpkg/bufimage"
 	"github.com/bufbuild/buf/private/bufpkg/bufimage/bufimageutil"
+	imagev1 "github.com/bufbuild/buf/private/gen/proto/go/buf/alpha/image/v1"
 	"github.com/bufbuild/bufverif/internal/bufx"
 	"github.com/bufbuild/bufverif/internal/enum"
 	"github.com/bufbuild/bufverif/internal/evid"
@@ -26,6 +27,17 @@ import (
 )
 
 const wktPath = "google/protobuf/descriptor.proto"
+
+// emptyPath is the well-known type a file imports WITHOUT using it (round 3); it is tiny, so it does not
+// cost a compilation of descriptor.proto.
+const emptyPath = "google/protobuf/empty.proto"
+
+// import kinds (round 3): how file i imports file j
+const (
+	kindUsed   = 0 // plain import, i references a message of j
+	kindUnused = 1 // plain import, nothing of j is referenced: the compiler records an unused dependency
+	kindPublic = 2 // `import public`, i itself references nothing of j (a pure re-export)
+)
 
 // field numbers of the custom options of file i: source-retention 5000+i, runtime-retention 5100+i
 // (the same numbers are used for the FileOptions and the MessageOptions extension).
@@ -40,6 +52,29 @@ type Corpus struct {
 	Edges [][2]int `json:"imports"` // [i,j]: file i imports file j
 	Dirs  []string `json:"dirs"`    // directory of file i
 	Wkt   []bool   `json:"wkt"`     // file i imports descriptor.proto, defines and uses custom options
+	// round 3: Kinds is parallel to Edges (nil = every import is referenced), Empty[i] = file i imports
+	// google/protobuf/empty.proto without using it (nil = no file does)
+	Kinds []int  `json:"import_kinds,omitempty"`
+	Empty []bool `json:"imports_wkt_unused,omitempty"`
+}
+
+func (c *Corpus) kind(e int) int {
+	if c.Kinds == nil {
+		return kindUsed
+	}
+	return c.Kinds[e]
+}
+
+func (c *Corpus) empty(i int) bool { return c.Empty != nil && c.Empty[i] }
+
+// publicClosure is the set of files whose symbols file j re-exports (`import public`, transitively), j excluded.
+func (c *Corpus) publicClosure(j int, into map[int]bool) {
+	for e, ed := range c.Edges {
+		if ed[0] == j && c.kind(e) == kindPublic && !into[ed[1]] {
+			into[ed[1]] = true
+			c.publicClosure(ed[1], into)
+		}
+	}
 }
 
 // Path is the module-relative path of file i.
@@ -52,14 +87,20 @@ func (c *Corpus) Files() map[string]string {
 		var b strings.Builder
 		b.WriteString("syntax = \"proto3\";\npackage p;\n")
 		var deps []int
-		for _, e := range c.Edges {
+		kindOf := map[int]int{}
+		for ei, e := range c.Edges {
 			if e[0] == i {
 				deps = append(deps, e[1])
+				kindOf[e[1]] = c.kind(ei)
 			}
 		}
 		sort.Ints(deps)
 		for _, j := range deps {
-			fmt.Fprintf(&b, "import %q;\n", c.Path(j))
+			if kindOf[j] == kindPublic {
+				fmt.Fprintf(&b, "import public %q;\n", c.Path(j))
+			} else {
+				fmt.Fprintf(&b, "import %q;\n", c.Path(j))
+			}
 		}
 		if c.Wkt[i] {
 			fmt.Fprintf(&b, "import %q;\n", wktPath)
@@ -67,12 +108,33 @@ func (c *Corpus) Files() map[string]string {
 			fmt.Fprintf(&b, "extend google.protobuf.MessageOptions { string msrc%d = %d [retention = RETENTION_SOURCE]; string mrun%d = %d; }\n", i, srcOptBase+i, i, runOptBase+i)
 			fmt.Fprintf(&b, "option (fsrc%d) = \"FS\"; option (frun%d) = \"FR\";\n", i, i)
 		}
+		if c.empty(i) {
+			fmt.Fprintf(&b, "import %q;\n", emptyPath)
+		}
 		fmt.Fprintf(&b, "message M%d {\n", i)
 		if c.Wkt[i] {
 			fmt.Fprintf(&b, "  option (msrc%d) = \"MS\"; option (mrun%d) = \"MR\";\n", i, i)
 		}
+		// referenced: the message of every import of kind "used", and everything such an import re-exports
+		// publicly, unless this file imports that file itself (then the import's own kind decides)
+		referenced := map[int]bool{}
 		for _, j := range deps {
-			fmt.Fprintf(&b, "  M%d m%d = %d;\n", j, j, j+1)
+			if kindOf[j] != kindUsed {
+				continue
+			}
+			referenced[j] = true
+			via := map[int]bool{}
+			c.publicClosure(j, via)
+			for l := range via {
+				if _, direct := kindOf[l]; !direct {
+					referenced[l] = true
+				}
+			}
+		}
+		for j := 0; j < c.N; j++ {
+			if referenced[j] {
+				fmt.Fprintf(&b, "  M%d m%d = %d;\n", j, j, j+1)
+			}
 		}
 		b.WriteString("}\n")
 		out[c.Path(i)] = b.String()
@@ -87,14 +149,31 @@ type ReqModel struct {
 	Wkts    map[string]bool     // WKT imports present in the image
 	Deps    map[string][]string // direct imports of every file in the image (model side)
 	Opt     map[string]int      // files carrying the custom options -> file index
+	// round 3: imports by kind, file -> imported path (model side; counted, the oracle does not depend on them)
+	Unused map[string]map[string]bool
+	Public map[string]map[string]bool
 }
 
 // Model computes the reference model for a target set (bitmask over files).
 func (c *Corpus) Model(targets int) *ReqModel {
-	m := &ReqModel{Targets: map[string]bool{}, Imports: map[string]bool{}, Wkts: map[string]bool{}, Deps: map[string][]string{}, Opt: map[string]int{}}
+	m := &ReqModel{Targets: map[string]bool{}, Imports: map[string]bool{}, Wkts: map[string]bool{}, Deps: map[string][]string{}, Opt: map[string]int{},
+		Unused: map[string]map[string]bool{}, Public: map[string]map[string]bool{}}
+	mark := func(set map[string]map[string]bool, from, to string) {
+		if set[from] == nil {
+			set[from] = map[string]bool{}
+		}
+		set[from][to] = true
+	}
 	adj := make([][]int, c.N)
-	for _, e := range c.Edges {
+	for ei, e := range c.Edges {
+		// an import is an import whatever its kind: reachability and the dependency lists do not look at the kind
 		adj[e[0]] = append(adj[e[0]], e[1])
+		switch c.kind(ei) {
+		case kindUnused:
+			mark(m.Unused, c.Path(e[0]), c.Path(e[1]))
+		case kindPublic:
+			mark(m.Public, c.Path(e[0]), c.Path(e[1]))
+		}
 	}
 	in := make([]bool, c.N)
 	var visit func(i int)
@@ -131,6 +210,11 @@ func (c *Corpus) Model(targets int) *ReqModel {
 			m.Deps[p] = append(m.Deps[p], wktPath)
 			m.Wkts[wktPath] = true
 			m.Opt[p] = i
+		}
+		if c.empty(i) {
+			m.Deps[p] = append(m.Deps[p], emptyPath)
+			m.Wkts[emptyPath] = true
+			mark(m.Unused, p, emptyPath)
 		}
 	}
 	return m
@@ -266,15 +350,19 @@ func readOptions(fd *descriptorpb.FileDescriptorProto, i int) optionState {
 
 // ReqStats are per-clause exercise counters.
 type ReqStats struct {
-	TargetsOnce, ImportsOnce, WktOnce       int // files required exactly once and found exactly once
-	ImportsWithheld, WktWithheld            int // imports / WKTs present but (correctly) not generated
-	MultiRequest                            int // request sets with >= 2 requests
-	SharedImportAcrossRequests              int // a non-target file present in the proto_file of >= 2 requests while imports are generated
-	TargetImportedFromOtherDir              int // a target that is an import of another request's image (nonImportPaths clause)
-	ClosureEdges                            int // dependency edges checked for presence + order
-	RetSFD, RetGenStripped, RetImportKept   int // retention clauses checked positively
-	FilterDropped                           int // filtered request sets in which some target was not generated
-	FilterErrors                            int
+	TargetsOnce, ImportsOnce, WktOnce     int // files required exactly once and found exactly once
+	ImportsWithheld, WktWithheld          int // imports / WKTs present but (correctly) not generated
+	MultiRequest                          int // request sets with >= 2 requests
+	SharedImportAcrossRequests            int // a non-target file present in the proto_file of >= 2 requests while imports are generated
+	TargetImportedFromOtherDir            int // a target that is an import of another request's image (nonImportPaths clause)
+	ClosureEdges                          int // dependency edges checked for presence + order
+	RetSFD, RetGenStripped, RetImportKept int // retention clauses checked positively
+	FilterDropped                         int // filtered request sets in which some target was not generated
+	FilterErrors                          int
+	// round 3
+	UnusedEdges, PublicEdges    int // dependency edges checked whose import is unused / public
+	UnusedEdgesToNonTargetMulti int // ... unused, to a file that is not a target, in a request set with several requests
+	ImageFilesWithUnusedRecord  int // image files for which buf recorded unused dependency indexes (half A: read from the image)
 }
 
 func (s *ReqStats) add(o *ReqStats) {
@@ -292,6 +380,10 @@ func (s *ReqStats) add(o *ReqStats) {
 	s.RetImportKept += o.RetImportKept
 	s.FilterDropped += o.FilterDropped
 	s.FilterErrors += o.FilterErrors
+	s.UnusedEdges += o.UnusedEdges
+	s.PublicEdges += o.PublicEdges
+	s.UnusedEdgesToNonTargetMulti += o.UnusedEdgesToNonTargetMulti
+	s.ImageFilesWithUnusedRecord += o.ImageFilesWithUnusedRecord
 }
 
 func dirOf(p string) string {
@@ -445,6 +537,15 @@ func CheckRequests(m *ReqModel, cfg ReqConfig, reqs []*pluginpb.CodeGeneratorReq
 					report("order/dependency-after-dependent", fmt.Sprintf("request %d: %s (index %d) imports %s (index %d)", qi, name, i, dep, j))
 				}
 				st.ClosureEdges++
+				if m.Unused[name][dep] {
+					st.UnusedEdges++
+					if len(reqs) > 1 && !m.Targets[dep] {
+						st.UnusedEdgesToNonTargetMulti++
+					}
+				}
+				if m.Public[name][dep] {
+					st.PublicEdges++
+				}
 			}
 			if !cfg.filtered() {
 				// the model's imports must be what the descriptor says (harness sanity + "carries all dependencies")
@@ -524,6 +625,7 @@ type ReqCase struct {
 	Sources  map[string]string `json:"sources,omitempty"`
 	Targets  []string          `json:"targets"`
 	Config   ReqConfig         `json:"config"`
+	Via      string            `json:"image_via,omitempty"` // "" = as built by the compiler; "wire" = after ImageToProtoImage + NewImageForProto
 	Requests []ReqSummary      `json:"requests"`
 	Error    string            `json:"error,omitempty"`
 }
@@ -573,12 +675,62 @@ func layouts(n int, dirs []string) [][]string {
 }
 
 type reqSpace struct {
-	n        int
-	dirs     []string
-	wktMasks []int
+	n         int
+	dirs      []string
+	wktMasks  []int
 	targets   []int        // bitmasks; nil = all non-empty subsets
 	filterWkt map[int]bool // WKT masks for which the per-plugin type filters are explored too
 	dagClass  string       // "" = every labelled DAG; "monotone" = only DAGs whose labels are topologically ascending or descending
+	// round 3
+	kinds      []int // import kinds an edge may have (nil = every import is referenced); every assignment of kinds to edges is enumerated
+	emptyMasks []int // bitmasks of the files that import google/protobuf/empty.proto without using it (nil = none)
+	skipPlain  bool  // skip the corpora without any unused / public import (they are covered by the other spaces)
+	viaWire    bool  // evaluate the all-targeted image a second time after a round trip through its wire form (buf extension)
+}
+
+// kindAssignments enumerates every assignment of the given kinds to e edges.
+func kindAssignments(e int, kinds []int) [][]int {
+	if len(kinds) == 0 {
+		return [][]int{nil}
+	}
+	out := [][]int{{}}
+	for i := 0; i < e; i++ {
+		var next [][]int
+		for _, a := range out {
+			for _, k := range kinds {
+				next = append(next, append(append([]int(nil), a...), k))
+			}
+		}
+		out = next
+	}
+	return out
+}
+
+func plainKinds(a []int) bool {
+	for _, k := range a {
+		if k != kindUsed {
+			return false
+		}
+	}
+	return true
+}
+
+// viaWire sends an image through its serialised form: the unused dependency indexes then come from the
+// image's buf extension instead of from the compiler.
+func viaWire(image bufimage.Image) (bufimage.Image, error) {
+	protoImage, err := bufimage.ImageToProtoImage(image)
+	if err != nil {
+		return nil, err
+	}
+	data, err := proto.Marshal(protoImage)
+	if err != nil {
+		return nil, err
+	}
+	fresh := &imagev1.Image{}
+	if err := proto.Unmarshal(data, fresh); err != nil {
+		return nil, err
+	}
+	return bufimage.NewImageForProto(fresh)
 }
 
 // monotone: every edge goes from a larger to a smaller label, or every edge from a smaller to a larger one.
@@ -625,25 +777,40 @@ func runRequests(r *evid.Run, spaces []reqSpace) {
 		gi     int
 		layout []string
 		wkt    int
+		kinds  []int
+		empty  int
 	}
 	var items []item
 	for si := range spaces {
 		sp := &spaces[si]
 		dags := enum.Digraphs(sp.n, true)
 		ls := layouts(sp.n, sp.dirs)
-		ndags := 0
+		ndags, nvariants := 0, 0
 		for gi, g := range dags {
 			if sp.dagClass == "monotone" && !monotone(g) {
 				continue
 			}
 			ndags++
-			for _, l := range ls {
-				for _, w := range sp.wktMasks {
-					items = append(items, item{sp, g, gi, l, w})
+			emptyMasks := sp.emptyMasks
+			if emptyMasks == nil {
+				emptyMasks = []int{0}
+			}
+			for _, ka := range kindAssignments(len(g.Edges()), sp.kinds) {
+				for _, em := range emptyMasks {
+					if sp.skipPlain && plainKinds(ka) && em == 0 {
+						continue
+					}
+					nvariants++
+					for _, l := range ls {
+						for _, w := range sp.wktMasks {
+							items = append(items, item{sp, g, gi, l, w, ka, em})
+						}
+					}
 				}
 			}
 		}
-		r.Set(fmt.Sprintf("A_space_%d_n%d", si, sp.n), map[string]any{"dags": ndags, "dag_class": sp.dagClass, "dirs": sp.dirs, "layouts": len(ls), "wkt_masks": sp.wktMasks, "type_filters_for_wkt_masks": len(sp.filterWkt)})
+		r.Set(fmt.Sprintf("A_space_%d_n%d", si, sp.n), map[string]any{"dags": ndags, "dag_class": sp.dagClass, "dirs": sp.dirs, "layouts": len(ls), "wkt_masks": sp.wktMasks, "type_filters_for_wkt_masks": len(sp.filterWkt),
+			"import_kinds": sp.kinds, "unused_wkt_masks": sp.emptyMasks, "dag_x_import_kind_x_unused_wkt_variants": nvariants, "plain_variants_skipped": sp.skipPlain, "also_via_wire_form": sp.viaWire})
 	}
 	r.Set("A_images_planned", len(items))
 	// fixed stride order: should a deadline cut the run, the prefix that ran is spread over the whole space
@@ -665,12 +832,22 @@ func runRequests(r *evid.Run, spaces []reqSpace) {
 	r.ParallelFor(len(items), 0, func(ix int) {
 		ix = order(ix)
 		it := items[ix]
-		c := &Corpus{N: it.sp.n, Dirs: it.layout, Wkt: make([]bool, it.sp.n)}
+		c := &Corpus{N: it.sp.n, Dirs: it.layout, Wkt: make([]bool, it.sp.n), Kinds: it.kinds}
 		for _, e := range it.g.Edges() {
 			c.Edges = append(c.Edges, [2]int{e[0], e[1]})
 		}
 		for i := 0; i < c.N; i++ {
 			c.Wkt[i] = it.wkt&(1<<i) != 0
+		}
+		variant := ""
+		if !plainKinds(it.kinds) || it.empty != 0 {
+			variant = fmt.Sprintf("|k%v|e%d", it.kinds, it.empty)
+		}
+		if it.empty != 0 {
+			c.Empty = make([]bool, c.N)
+			for i := 0; i < c.N; i++ {
+				c.Empty[i] = it.empty&(1<<i) != 0
+			}
 		}
 		sources := c.Files()
 		full, err := bufx.BuildImage(ctx, sources)
@@ -679,13 +856,19 @@ func runRequests(r *evid.Run, spaces []reqSpace) {
 			return
 		}
 		st := &ReqStats{}
+		for _, f := range full.Files() {
+			if len(f.UnusedDependencyIndexes()) > 0 {
+				st.ImageFilesWithUnusedRecord++
+			}
+		}
 		local := 0
 		localMismatch := 0
+		via := ""
 		evalOne := func(m *ReqModel, image bufimage.Image, tmask int, cfg ReqConfig) {
 			reqs, err, filterErr := RequestsFor(image, cfg)
 			r.Eval(1)
 			mk := func() *ReqCase {
-				rc := &ReqCase{Half: "A", Corpus: c, Sources: sources, Targets: bufx.SortedKeys(m.Targets), Config: cfg, Requests: summarize(reqs)}
+				rc := &ReqCase{Half: "A", Corpus: c, Sources: sources, Targets: bufx.SortedKeys(m.Targets), Config: cfg, Via: via, Requests: summarize(reqs)}
 				if err != nil {
 					rc.Error = err.Error()
 				}
@@ -708,7 +891,7 @@ func runRequests(r *evid.Run, spaces []reqSpace) {
 				}
 			}
 			if len(m.Imports)+len(m.Wkts) > 0 {
-				r.Distinct(fmt.Sprintf("A|%d|%d|%v|%d|%d|%s", c.N, it.gi, it.layout, it.wkt, tmask, cfg))
+				r.Distinct(fmt.Sprintf("A|%d|%d|%v|%d|%d|%s%s%s", c.N, it.gi, it.layout, it.wkt, tmask, cfg, variant, via))
 			}
 			r.SampleEvery(ix*131+tmask, 7919, func() any { return mk() })
 		}
@@ -751,6 +934,27 @@ func runRequests(r *evid.Run, spaces []reqSpace) {
 			for _, cfg := range reqConfigs {
 				evalOne(m, image, tmask, cfg)
 			}
+			if it.sp.viaWire && tmask == 1<<c.N-1 {
+				wired, err := viaWire(image)
+				if err != nil {
+					r.Incomplete(fmt.Sprintf("harness: image does not survive its wire form: %v", err))
+					return
+				}
+				if imageShape(wired) != imageShape(image) {
+					r.Incomplete("harness: image differs after its wire form")
+					return
+				}
+				for _, f := range wired.Files() {
+					if len(f.UnusedDependencyIndexes()) > 0 {
+						st.ImageFilesWithUnusedRecord++
+					}
+				}
+				via = "|wire"
+				for _, cfg := range reqConfigs {
+					evalOne(m, wired, tmask, cfg)
+				}
+				via = ""
+			}
 			if it.sp.filterWkt[it.wkt] && tmask == 1<<c.N-1 {
 				for k := 0; k < c.N; k++ {
 					for _, cfg := range reqConfigs {
@@ -780,21 +984,25 @@ func runRequests(r *evid.Run, spaces []reqSpace) {
 		mu <- struct{}{}
 	})
 	r.Set("A_clause_counts", map[string]int{
-		"targets_generated_exactly_once":               total.TargetsOnce,
-		"imports_generated_exactly_once":               total.ImportsOnce,
-		"wkt_generated_exactly_once":                   total.WktOnce,
-		"imports_present_but_withheld":                 total.ImportsWithheld,
-		"wkt_present_but_withheld":                     total.WktWithheld,
-		"request_sets_with_several_requests":           total.MultiRequest,
-		"imports_shared_by_several_requests_generated": total.SharedImportAcrossRequests,
-		"targets_imported_by_another_directory":        total.TargetImportedFromOtherDir,
-		"dependency_edges_checked":                     total.ClosureEdges,
-		"retention_source_file_descriptors_complete":   total.RetSFD,
-		"retention_generated_proto_file_stripped":      total.RetGenStripped,
-		"retention_import_proto_file_untouched":        total.RetImportKept,
-		"filtered_sets_dropping_a_target":              total.FilterDropped,
-		"filter_errors_skipped":                        total.FilterErrors,
-		"derived_images_compared_with_path_build":      crossChecked,
+		"targets_generated_exactly_once":                               total.TargetsOnce,
+		"imports_generated_exactly_once":                               total.ImportsOnce,
+		"wkt_generated_exactly_once":                                   total.WktOnce,
+		"imports_present_but_withheld":                                 total.ImportsWithheld,
+		"wkt_present_but_withheld":                                     total.WktWithheld,
+		"request_sets_with_several_requests":                           total.MultiRequest,
+		"imports_shared_by_several_requests_generated":                 total.SharedImportAcrossRequests,
+		"targets_imported_by_another_directory":                        total.TargetImportedFromOtherDir,
+		"dependency_edges_checked":                                     total.ClosureEdges,
+		"retention_source_file_descriptors_complete":                   total.RetSFD,
+		"retention_generated_proto_file_stripped":                      total.RetGenStripped,
+		"retention_import_proto_file_untouched":                        total.RetImportKept,
+		"filtered_sets_dropping_a_target":                              total.FilterDropped,
+		"filter_errors_skipped":                                        total.FilterErrors,
+		"derived_images_compared_with_path_build":                      crossChecked,
+		"dependency_edges_checked_unused_import":                       total.UnusedEdges,
+		"dependency_edges_checked_public_import":                       total.PublicEdges,
+		"unused_import_of_a_non_target_checked_in_a_multi_request_set": total.UnusedEdgesToNonTargetMulti,
+		"image_files_with_recorded_unused_dependencies":                total.ImageFilesWithUnusedRecord,
 	})
 	if crossMismatch > 0 {
 		r.Incomplete(fmt.Sprintf("harness: %d derived target images differ from the --path build", crossMismatch))
@@ -805,6 +1013,9 @@ func runRequests(r *evid.Run, spaces []reqSpace) {
 			"wkt withheld": total.WktWithheld, "shared import across requests": total.SharedImportAcrossRequests,
 			"target imported from another directory": total.TargetImportedFromOtherDir, "retention sfd": total.RetSFD,
 			"retention stripped": total.RetGenStripped, "retention import kept": total.RetImportKept, "path cross-check": crossChecked,
+			"unused import edges": total.UnusedEdges, "public import edges": total.PublicEdges,
+			"unused import of a non-target in a multi-request set": total.UnusedEdgesToNonTargetMulti,
+			"image files with recorded unused dependencies":        total.ImageFilesWithUnusedRecord,
 		} {
 			if n == 0 {
 				r.Incomplete("half A never exercised: " + name)
